@@ -117,11 +117,15 @@ func New(t *testing.T, chain string, oracles, bridgers, variants []string, maxNo
 		panic("no FX token pair")
 	}
 	a.wfx = pair.GetERC20Contract()
-	for n := 1; n <= maxNonce && len(variants) > 1; n++ {
+	hasB := false
+	for _, v := range variants {
+		hasB = hasB || v == "B"
+	}
+	for n := 1; n <= maxNonce && hasB; n++ {
 		data, e := precompile.NewExecuteClaimMethod(nil).PackInput(types.ExecuteClaimArgs{Chain: chain, EventNonce: big.NewInt(int64(n))})
 		must(e)
 		nonce := w.App.EvmKeeper.GetNonce(ctx, a.user.Address())
-		amt := a.amount(n, variants[len(variants)-1]).BigInt()
+		amt := a.amount(n, "B").BigInt()
 		_, e = w.App.EvmKeeper.CallEVMWithoutGas(ctx, a.user.Address(), nil, nil, initCode(reentrantRuntime(types.GetAddress(), a.wfx, amt, data)), true)
 		must(e)
 		addr := crypto.CreateAddress(a.user.Address(), nonce)
@@ -142,6 +146,9 @@ func must(err error) {
 // amount deposited by the claim (n, v): a distinct power of 8, so that the receiver's balance
 // encodes how many times each (nonce, variant) was applied.
 func (a *Adapter) amount(n int, v string) sdkmath.Int {
+	if v == "H" {
+		v = "A"
+	}
 	vi := sort.SearchStrings(a.Variants, v)
 	e := (n-1)*len(a.Variants) + vi
 	return sdkmath.NewIntFromBigInt(new(big.Int).Exp(big.NewInt(8), big.NewInt(int64(e)), nil))
@@ -206,8 +213,15 @@ func (a *Adapter) extAddr(hexAddr string) string {
 	return hexAddr
 }
 
-func (a *Adapter) isCallVariant(v string) bool {
-	return len(a.Variants) > 1 && v == a.Variants[len(a.Variants)-1]
+// variants: "A" a deposit; "B" a bridge call into the re-entrant receiver; "H" the deposit of "A" reported at
+// another external height (same amount: what it pays is indistinguishable from "A")
+func (a *Adapter) isCallVariant(v string) bool { return v == "B" }
+
+func (a *Adapter) height(n int, v string) uint64 {
+	if v == "H" {
+		return uint64(1050 + n)
+	}
+	return uint64(1000 + n)
 }
 
 func (a *Adapter) claim(b string, n int, v string) types.ExternalClaim {
@@ -217,14 +231,14 @@ func (a *Adapter) claim(b string, n int, v string) types.ExternalClaim {
 	}
 	if a.isCallVariant(v) {
 		return &types.MsgBridgeCallClaim{
-			ChainName: a.Chain, BridgerAddress: a.bridgerKey(b).AccAddress().String(), EventNonce: uint64(n), BlockHeight: uint64(1000 + n),
+			ChainName: a.Chain, BridgerAddress: a.bridgerKey(b).AccAddress().String(), EventNonce: uint64(n), BlockHeight: a.height(n, v),
 			Sender: sender, Refund: sender, To: a.extAddr(a.reent[n-1].Hex()), TokenContracts: []string{a.tok}, Amounts: []sdkmath.Int{a.amount(n, v)},
 			Data: "01", Value: sdkmath.ZeroInt(), Memo: "", TxOrigin: sender,
 		}
 	}
 	return &types.MsgSendToFxClaim{
 		ChainName: a.Chain, BridgerAddress: a.bridgerKey(b).AccAddress().String(),
-		EventNonce: uint64(n), BlockHeight: uint64(1000 + n), TokenContract: a.tok,
+		EventNonce: uint64(n), BlockHeight: a.height(n, v), TokenContract: a.tok,
 		Amount: a.amount(n, v), Sender: sender, Receiver: a.recv.String(), TargetIbc: "",
 	}
 }
@@ -426,13 +440,13 @@ func (a *Adapter) Project(ctx sdk.Context) any {
 		switch c := claim.(type) {
 		case *types.MsgSendToFxClaim:
 			for _, x := range a.Variants {
-				if !a.isCallVariant(x) && c.Amount.Equal(a.amount(n, x)) {
+				if !a.isCallVariant(x) && c.Amount.Equal(a.amount(n, x)) && c.BlockHeight == a.height(n, x) {
 					v = x
 				}
 			}
 		case *types.MsgBridgeCallClaim:
-			if n >= 1 && n <= a.MaxNonce && c.To == a.extAddr(a.reent[n-1].Hex()) {
-				v = a.Variants[len(a.Variants)-1]
+			if n >= 1 && n <= a.MaxNonce && len(a.reent) >= n && c.To == a.extAddr(a.reent[n-1].Hex()) {
+				v = "B"
 			}
 		}
 		if n < 1 || n > a.MaxNonce {
@@ -457,15 +471,19 @@ func (a *Adapter) Project(ctx sdk.Context) any {
 		for _, v := range a.Variants {
 			d := new(big.Int)
 			bal.DivMod(bal, eight, d)
-			effects[n-1][v] = d.Int64()
+			effects[n-1][v] += d.Int64()
+		}
+		// "H" pays the same amount as "A": the digit belongs to whichever of the two was observed
+		if _, hasH := effects[n-1]["H"]; hasH && observed[n-1]["H"] && !observed[n-1]["A"] {
+			effects[n-1]["H"], effects[n-1]["A"] = effects[n-1]["A"], 0
 		}
 	}
 	if bal.Sign() != 0 {
 		effects[0][a.Variants[0]] += 1000 // value beyond every modelled deposit: something else paid the receiver
 	}
 	// the bridge-call variant: how often the claim's deposit into the receiving contract was applied
-	if len(a.Variants) > 1 {
-		cv := a.Variants[len(a.Variants)-1]
+	if len(a.reent) > 0 {
+		cv := "B"
 		for n := 1; n <= a.MaxNonce; n++ {
 			b, err := a.W.App.EvmKeeper.ERC20BalanceOf(ctx, a.wfx, a.reent[n-1])
 			must(err)
